@@ -30,14 +30,16 @@ def FastW.addRow (w : FastW) (r : Row) : FastW := Id.run do
   for (k, v) in r do
     let h := xxhash64 (encodePair k v)
     if !w.seen.contains (k, v) then
-      let colVals := match w.colVals[k]? with
-        | none => w.colVals.insert k #[(v, h)]
-        | some a => w.colVals.insert k (a.push (v, h))
       let cols := if w.colVals.contains k then w.cols else w.cols.push k
+      -- `alter` updates the array in place (a lookup followed by `insert` would copy it on every push)
+      let colVals := w.colVals.alter k fun
+        | none => some #[(v, h)]
+        | some a => some (a.push (v, h))
       w := { w with seen := w.seen.insert (k, v) (), colVals := colVals, cols := cols }
-    let ids := match w.ids[h]? with
-      | none => w.ids.insert h #[w.next]
-      | some a => w.ids.insert h (a.push w.next)
+    let next := w.next
+    let ids := w.ids.alter h fun
+      | none => some #[next]
+      | some a => some (a.push next)
     w := { w with ids := ids }
   return { w with next := w.next + 1 }
 
@@ -210,6 +212,10 @@ def stepIdx (st : IdxSt) (cmd : String) (args : List String) : IdxSt × String :
       ({ st with logc := r.1.1 }, ans ++ " " ++ " ".intercalate r.1.2)
     | _, _ => (st, "bad-op")
   | "ctrace-reset" => ({ st with logc := [] }, "ok")
+  | "imagecount" =>  -- row counter and number of stored bitmaps (= distinct value indexes), for large datasets
+    match st.ix with
+    | some ix => (st, s!"ok I={ix.next} n={st.fast.ids.size}")
+    | none => (st, "bad-op")
   | "imagebig" =>  -- the big writer model's output image (cursor walk over the sorted temp keys)
     let img := BigWriter.image xxhash64 st.rows.toList
     let keys := (img.1.map (·.1.toNat)).mergeSort (· ≤ ·)
